@@ -432,6 +432,9 @@ class StmtMixin:
 
     def e_ListComp(self, e):
         t = self.expect_type(e)
+        if not isinstance(t, ty.TList):
+            t = None
+        self._expect = None
         gens = []
         for g in e.generators:
             if g.is_async:
@@ -468,6 +471,7 @@ class StmtMixin:
         n0 = len(self.pc)
         save_q = self.qguards
         save_qv = self.qvars
+        self._range_bounds = []
         try:
             for k, (target, iter_e) in enumerate(gens):
                 if k == 0 and first_iter is not None:
@@ -480,6 +484,10 @@ class StmtMixin:
                     if k == 0:
                         self._last_im = im
                 g = z3.And(bvars[k] >= im['start'], bvars[k] < im['n']())
+                rb = (im['start'], im['n']()) if im.get('direct') else None
+                if rb is not None and any(self.mentions(t_, bvars) for t_ in rb):
+                    rb = None
+                self._range_bounds.append(rb)
                 guards.append(g)
                 self.pc.append(g)
                 self.qguards = list(self.qguards) + [g]
@@ -516,6 +524,42 @@ class StmtMixin:
             old_arrs = None
         vterms = self.to_terms(val, elem_t)
         sl = ty.slots(elem_t)
+        if m > 1 and len(guards) == m and z3.is_true(z3.simplify(z3.Or([c for c, _ in yes]))) and not extend \
+                and all(r is not None for r in self._range_bounds) and len(self._range_bounds) == m:
+            # unfiltered nest of ranges with bounds independent of the loop variables: row-major law
+            lo = [r[0] for r in self._range_bounds]
+            ns = []
+            for (l, h) in self._range_bounds:
+                d_ = h if z3.is_int_value(l) and l.as_long() == 0 else h - l
+                # keep the extent term itself when it is known to be positive (matching-friendly index terms)
+                chk = z3.Solver()
+                chk.set('timeout', 500)
+                chk.add(*self.facts)
+                chk.add(*self.pc)
+                chk.add(z3.Not(d_ > 0))
+                nterm = d_ if chk.check() == z3.unsat else z3.If(d_ > 0, d_, z3.IntVal(0))
+                if not z3.is_const(nterm):
+                    # name the extent: index patterns must not contain `if` terms
+                    nc = self.fresh('ext', I)
+                    self.fact(nc == nterm)
+                    nterm = nc
+                ns.append(nterm)
+            total = ns[0]
+            for nk in ns[1:]:
+                total = total * nk
+            def rel(k):
+                return bvars[k] if z3.is_int_value(lo[k]) and lo[k].as_long() == 0 else bvars[k] - lo[k]
+            flat = rel(0)
+            for k in range(1, m):
+                flat = flat * ns[k] + rel(k)
+            arrs = [self.fresh('rowmajor', z3.ArraySort(I, self.ctx.sort_of(s_))) for s_ in sl]
+            inrange = z3.And([z3.And(bvars[k] >= lo[k], bvars[k] < lo[k] + ns[k]) for k in range(m)])
+            for na, vt in zip(arrs, vterms):
+                self.fact(z3.ForAll(bvars, z3.Implies(inrange, z3.Select(na, flat) == vt)))
+            Rm = self.alloc(ty.TList(elem_t))
+            self.list_set_all(Rm, total, arrs)
+            self.used_assumption('row-major law for an unfiltered nest of ranges (engine semantics of nested comprehensions)')
+            return Rm
         if m == 1 and len(guards) == 1 and z3.is_true(z3.simplify(z3.Or([c for c, _ in yes]))) and not extend:
             # no filter: R[i] = f(E(start + i)), len(R) = number of source elements (plain map law)
             im0 = first_iter if first_iter is not None else self._last_im
